@@ -143,8 +143,16 @@ func usable(z *decimal.Decimal) (msg string) {
 		}
 	}()
 	before := observe(z)
-	// unrelated operations that take scratch buffers from the pool: a value that
-	// shares memory with the pool would be overwritten by them
+	churnPool()
+	if after := observe(z); after.String()+after.Digits != before.String()+before.Digits {
+		return fmt.Sprintf("the decoded value changed while unrelated operations ran: %s -> %s", before, after)
+	}
+	return usableTail(z, before)
+}
+
+// churnPool runs unrelated operations that take scratch buffers from the pool: a
+// value that shares memory with the pool would be overwritten by them.
+func churnPool() {
 	a := new(decimal.Decimal).SetPrec(80).SetBitsExp([]decimal.Word{7, 1234567890123456789, 5000000000000000001, 3}, 0)
 	b := new(decimal.Decimal).SetPrec(60).SetBitsExp([]decimal.Word{9999999999999999999, 42, 8888888888888888888}, 0)
 	q := new(decimal.Decimal).SetPrec(120)
@@ -155,9 +163,14 @@ func usable(z *decimal.Decimal) (msg string) {
 	}
 	s := new(decimal.Decimal).SetPrec(500).SetBitsExp(big12, 0)
 	s.Mul(s, s)
-	if after := observe(z); after.String()+after.Digits != before.String()+before.Digits {
-		return fmt.Sprintf("the decoded value changed while unrelated operations ran: %s -> %s", before, after)
-	}
+}
+
+func usableTail(z *decimal.Decimal, before Obs) (msg string) {
+	defer func() {
+		if r := recover(); r != nil {
+			msg = fmt.Sprintf("using the decoded value panicked: %v", r)
+		}
+	}()
 	one := new(decimal.Decimal).SetUint64(1)
 	t := new(decimal.Decimal).SetPrec(z.Prec() + 1)
 	if e := z.MantExp(nil); e > -2000 && e < 2000 {
@@ -178,6 +191,21 @@ func usable(z *decimal.Decimal) (msg string) {
 	}
 	if o2 := observe(&z2); o2.String()+o2.Digits != before.String()+before.Digits {
 		return fmt.Sprintf("the accepted value does not round-trip: %s -> %s", before, o2)
+	}
+	return ""
+}
+
+func reuseAfterReject(z *decimal.Decimal) (msg string) {
+	defer func() {
+		if r := recover(); r != nil {
+			msg = fmt.Sprintf("using the receiver of a rejected payload panicked: %v", r)
+		}
+	}()
+	z.SetUint64(1234567890123456789)
+	before := observe(z)
+	churnPool()
+	if after := observe(z); after.String()+after.Digits != before.String()+before.Digits {
+		return fmt.Sprintf("after GobDecode rejected the payload the receiver was set to %s; it changed to %s while unrelated operations ran", before, after)
 	}
 	return ""
 }
@@ -227,6 +255,14 @@ func decodeCheck(p []byte, prec uint32, mode uint8, laden bool) (msg string, cla
 		return "GobDecode returned nil and left a malformed value: " + c, "not-canonical", true
 	}
 	if err != nil {
+		// a rejected payload leaves the receiver "valid": one case in four (chosen by
+		// the payload's bytes) goes on using it - the next value it is given must be
+		// its own, not memory the failed call also handed to the scratch pool
+		if len(p) >= 18 && (int(p[len(p)-1])+len(p))%4 == 0 {
+			if u := reuseAfterReject(z); u != "" {
+				return u, "unusable-after-reject", false
+			}
+		}
 		return "", "", false
 	}
 	if u := usable(z); u != "" {
